@@ -135,8 +135,25 @@ def properties_of_failure(rec, jf):
 def relevant(pid, rec, jf):
     return pid in properties_of_failure(rec, jf)
 
-def relevant_disagreement(pid, rec):
-    return True
+PURE_OPS = ("read_all", "read_first_n", "read_n", "n_lines", "last_line", "len", "is_empty", "range", "payload_size")
+
+def disagreement_what(op, impl_line, model_line):
+    """a model/implementation disagreement in the vocabulary of the judge's failures: the result differs, or a file does"""
+    ra, _, sa = impl_line[2:].partition(" | ")
+    rb, _, sb = model_line[2:].partition(" | ")
+    if ra != rb:
+        return "result %s :: model %s :: got %s" % (op, rb[:200], ra[:200])
+    fa = dict(x.split("=", 1) for x in sa.split() if "=" in x)
+    fb = dict(x.split("=", 1) for x in sb.split() if "=" in x)
+    for fn in sorted(set(fa) | set(fb)):
+        if fa.get(fn) != fb.get(fn):
+            return "file %s expected=%s got=%s" % (fn, fb.get(fn, "absent"), fa.get(fn, "absent"))
+    return "result %s :: differs" % op
+
+def relevant_disagreement(pid, rec, d):
+    """A disagreement between the model and the implementation counts for the properties whose theorems are about
+    the model function behind the disagreeing observation - the same attribution as for the judge's failures."""
+    return pid in properties_of_failure(rec, d)
 
 CLASS_CODES = {"marker_tail": 1, "cache_realign": 2, "create_residue": 3}
 
